@@ -31,7 +31,7 @@ REG = Registry(
 
 OPS = ["set_weights", "set_means", "set_variances", "set_floors", "em_step", "deepcopy", "pickle", "hdf5_new",
        "hdf5_load_other", "set_floors", "set_variances", "set_weights", "lower_floors_and_shrink", "lend_to_other_machine",
-       "other_feature_dimension"]
+       "other_feature_dimension", "scale_floors_in_place"]
 
 
 def g_history(draw):
@@ -88,6 +88,10 @@ def g_history(draw):
         elif name == "lend_to_other_machine":
             op["factor"] = gen.choice(draw, [0.3, 2.0, 50.0])
             op["train"] = gen.boolean(draw)
+        elif name == "scale_floors_in_place":
+            # `machine.variance_thresholds *= f`: get, in-place operator, set - for array floors the setter receives the
+            # very array the machine already holds, with other values
+            op["factor"] = gen.choice(draw, [50.0, 1e3, 1e6, 0.1])
         elif name == "other_feature_dimension":
             # the same object is given Gaussians over another number of features (floors, means, variances through
             # the public setters); from then on the history continues with data of that dimension
@@ -228,6 +232,9 @@ def c_history(ctx, case):
             if op.get("train"):
                 b.fit(train)
             b.log_likelihood(probe)
+        elif name == "scale_floors_in_place":
+            g.variance_thresholds *= float(op["factor"])
+            floor_after_var = floor_after_var or vars_set
         elif name == "other_feature_dimension":
             g.variance_thresholds = float(op["floor"])
             g.means = np.array(op["mu"], float)
